@@ -2,6 +2,7 @@ package main
 
 import (
 	"fmt"
+	"math"
 	"math/big"
 	"math/rand/v2"
 	"time"
@@ -341,6 +342,31 @@ func (r *runner) history(cfg histCfg) {
 			if hs.PrevTimestamps[i].Unix() != ts[int(h)-i] {
 				fail("apply/prev-timestamps", fmt.Sprintf("PrevTimestamps[%d]=%d, header %d had %d", i, hs.PrevTimestamps[i].Unix(), int(h)-i, ts[int(h)-i]))
 				break
+			}
+		}
+		// the block-time accumulator is a decayed sum: whatever the decay rate, the new value lies between the block's
+		// own time and that time plus the previous value. Judged only where both ends are representable (a wrapped
+		// value outside them is an arithmetic overflow on the way, not a decay).
+		if h != n.HardforkASIC.Height-1 && h > 0 {
+			P := big.NewInt(int64(parent.OakTime))
+			if h == n.HardforkOak.Height-1 {
+				P = new(big.Int).Mul(big.NewInt(int64(parent.BlockInterval())), new(big.Int).SetUint64(h))
+			}
+			delta := big.NewInt(int64(time.Unix(t, 0).Sub(time.Unix(ts[len(ts)-2], 0))))
+			lo, hi := new(big.Int).Set(delta), new(big.Int).Set(delta)
+			if P.Sign() < 0 {
+				lo.Add(lo, P)
+			} else {
+				hi.Add(hi, P)
+			}
+			if lo.IsInt64() && hi.IsInt64() && P.IsInt64() && time.Unix(t, 0).Sub(time.Unix(ts[len(ts)-2], 0)) < math.MaxInt64 && time.Unix(t, 0).Sub(time.Unix(ts[len(ts)-2], 0)) > math.MinInt64 {
+				b.Count("oak_time_steps_bounded", 1)
+				if P.Cmp(big.NewInt(int64(107*24*time.Hour))) > 0 {
+					b.Count("oak_time_steps_bounded_with_more_than_107_days_accumulated", 1)
+				}
+				if N := big.NewInt(int64(hs.OakTime)); N.Cmp(lo) < 0 || N.Cmp(hi) > 0 {
+					fail("oak-time/not-a-decayed-sum/"+e.String(), fmt.Sprintf("OakTime went from %v to %v with a block time of %v at height %d: outside [%v, %v], the range of a decayed sum", parent.OakTime, hs.OakTime, time.Duration(delta.Int64()), h, time.Duration(lo.Int64()), time.Duration(hi.Int64())))
+				}
 			}
 		}
 		// never zero
